@@ -224,13 +224,17 @@ BIT_STRING__compactify(const BIT_STRING_t *st, BIT_STRING_t *tmp) {
         assert(st->bits_unused == 0);
         return st;
     } else {
-        for(b = &st->buf[st->size - 1]; b > st->buf && *b == 0; b--) {
+        const uint8_t *last = &st->buf[st->size - 1];
+        /* Whatever sits in the unused bits of the last octet is not data */
+        const uint8_t last_octet = *last & (0xff << st->bits_unused);
+        for(b = last; b > st->buf && (b == last ? last_octet : *b) == 0;
+            b--) {
             ;
         }
         /* b points to the last byte which may contain data */
-        if(*b) {
+        if(b == last ? last_octet : *b) {
             int unused = 7;
-            uint8_t v = *b;
+            uint8_t v = (b == last) ? last_octet : *b;
             v &= -(int8_t)v;
             if(v & 0x0F) unused -= 4;
             if(v & 0x33) unused -= 2;
